@@ -1243,6 +1243,8 @@ func (tr *FnTrans) backEdges(st *BState, in ssa.Instruction) {
 					}
 					if phi.Comment != "" {
 						env.vars["next:"+phi.Comment] = tr.val(phi.Edges[predIdx])
+						// head(v): the value v had at the start of this iteration
+						env.vars["head:"+phi.Comment] = tr.val(phi)
 					}
 				}
 				lbl := sa.Name
